@@ -73,8 +73,75 @@ def pointee(t):
     return None
 
 
+def unify(pat, ty, sub):
+    """Match a type pattern with type/const parameters against a type; extends sub (param name -> type). Regions ignored."""
+    k = pat.get("k")
+    if k in ("param", "cparam"):
+        if pat["n"] in sub:
+            return tstr(sub[pat["n"]]) == tstr(ty)
+        sub[pat["n"]] = ty
+        return True
+    if k != ty.get("k"):
+        return False
+    if k == "adt":
+        if pat["def"] != ty["def"]:
+            return False
+        pa, ta = adt_args(pat), adt_args(ty)
+        return len(pa) == len(ta) and all(unify(x, y, sub) for x, y in zip(pa, ta))
+    if k in ("ref", "ptr"):
+        return pat["mut"] == ty["mut"] and unify(pat["t"], ty["t"], sub)
+    if k == "slice":
+        return unify(pat["t"], ty["t"], sub)
+    if k == "array":
+        return unify(pat["t"], ty["t"], sub) and unify(pat["n"], ty["n"], sub)
+    if k == "tuple":
+        return len(pat["ts"]) == len(ty["ts"]) and all(unify(x, y, sub) for x, y in zip(pat["ts"], ty["ts"]))
+    return tstr(pat) == tstr(ty)
+
+
+def subst(ty, sub):
+    k = ty.get("k")
+    if k in ("param", "cparam"):
+        return sub.get(ty["n"], ty)
+    out = dict(ty)
+    if "args" in ty:
+        out["args"] = [subst(x, sub) if x.get("k") != "region" else x for x in ty["args"]]
+    if "t" in ty and isinstance(ty["t"], dict):
+        out["t"] = subst(ty["t"], sub)
+    if "ts" in ty:
+        out["ts"] = [subst(x, sub) for x in ty["ts"]]
+    if k == "array":
+        out["n"] = subst(ty["n"], sub)
+    return out
+
+
 class TyEnv:
     """Per-function environment: equalities between type-level lengths from the where-clauses."""
+
+    db = None  # set by the analysis: crate facts, used to resolve associated types of crate-local impls
+
+    def resolve_local_assoc(self, alias):
+        """<Self as LocalTrait<..>>::Name  ->  the type the matching crate-local impl assigns (None if not unique)."""
+        if self.db is None:
+            return None
+        trait = "::".join(alias["def"].split("::")[:-1])
+        name = alias["def"].split("::")[-1]
+        args = [x for x in alias["args"] if x.get("k") != "region"]
+        hits = []
+        for imp in self.db.impls:
+            if imp.get("trait") != trait:
+                continue
+            targs = [x for x in imp["trait_args"] if x.get("k") != "region"]
+            if len(targs) != len(args):
+                continue
+            sub = {}
+            if all(unify(p, a, sub) for p, a in zip(targs, args)):
+                for it in imp["items"]:
+                    if it["name"] == name and "ty" in it:
+                        hits.append(subst(it["ty"], sub))
+        if len(hits) == 1:
+            return hits[0]
+        return None
 
     def __init__(self, predicates=None):
         # map canonical alias string -> type json it equals
@@ -140,6 +207,9 @@ class TyEnv:
                 return self.length(a[0])
             if d == "typenum::ToUInt::Output":
                 return self.length(a[0])
+            r = self.resolve_local_assoc(t) if _depth < 4 else None
+            if r is not None:
+                return self.length(r, _depth + 1)
         return Poly.atom(("L", tstr(t)))
 
     # ---- symbolic sizes in bytes -----------------------------------------------------------
